@@ -1,8 +1,8 @@
 CHECKS = [
     entry("C22", "wire",
           technique="property-based testing (rapid): generated instants in every timestamp format the statement lists, through a real Router and a real DirectTransmission, read back from the batch a fake Honeycomb receives (independent msgpack decoder); nanosecond equality",
-          quick=dict(checks=15000, budget_s=45),
+          quick=dict(checks=9000, budget_s=50),
           thorough=dict(checks=40000, shards=16, budget_s=420),
-          level_text="Generated instants 2001..2286 at s/ms/us/ns resolution as RFC 3339 (0-9 fraction digits, offsets), 10/13/16/19-digit epoch (event-time header, JSON batch time) and msgpack timestamp 32/64/96 (msgpack batch time), via single JSON/msgpack events and JSON/msgpack batches, direct or through the collector stand-in, optionally a peer hop; forwarded time compared to the nanosecond. Exploration: finds deviations for generated instants; does not prove absence.",
+          level_text="Generated instants 2001..2286 at s/ms/us/ns resolution as RFC 3339 (0-9 fraction digits, offsets), 10/13/16/19-digit epoch (event-time header, JSON batch time) and msgpack timestamp 32/64/96 (msgpack batch time), via single JSON/msgpack events and JSON/msgpack batches, direct or through the collector stand-in, optionally a peer hop; forwarded time compared to the nanosecond. A concurrent sub-mode (2/4/8 client goroutines x 60 rounds of same-shaped requests, matched by unique id) reaches state shared between requests. Exploration: finds deviations for generated instants; does not prove absence.",
           level_note="Float epochs and OTLP timestamps are outside the statement and not generated. The real InMemCollector is replaced by a stand-in (it does not touch Event.Timestamp)."),
 ]
